@@ -97,12 +97,92 @@ ADVERSARIAL_STRINGS = ["", "'", '"', "\\", "\\\\", "\\'", "a'b", 'a"b', "\n", "\
                        "tab\there", "nul\x00l", "\x7f", " ", "﻿"]
 
 
+def gen_history(rng):
+    """a container changed step by step through every mutating form, observed (rendered, spread, enumerated, compared) in between;
+    returns (program, expected final rendering) with the expectation computed from a plain reference state"""
+    kind = rng.choice(["map", "map", "set", "list"])
+    keykind = rng.choice(["int", "str"])
+
+    def key():
+        return ('i', rng.choice([-20, -1, 0, 1, 2, 8, 9, 16, 100])) if keykind == "int" else ('s', rng.choice(["a", "b", "ab", "B", "", "z", "k1", "k0"]))
+
+    def val():
+        return rng.choice([('i', rng.randint(0, 9)), ('s', 'v'), ('null',), ('l', (('i', 1),))])
+    lines = []
+    observers = {"map": ["string(x)", "[...x]", "for k_ in keys x do k_ end", "length(x)", "x == x", "[e_ for e_ in entries x]", "print(x)", "sorted([...x])"],
+                 "set": ["string(x)", "[...x]", "for k_ in x do k_ end", "length(x)", "list(x)", "print(x)", "<<e_ for e_ in x>>"],
+                 "list": ["string(x)", "[...x]", "for k_ in x do k_ end", "length(x)", "print(x)"]}[kind]
+    if kind == "map":
+        state = {}
+        lines.append("def x = <<<>>>")
+        for _ in range(rng.randint(3, 12)):
+            op = rng.choice(["idx", "idx", "put", "remove", "observe", "observe"])
+            if op == "idx":
+                k, v = key(), val()
+                state[k] = v
+                lines.append(f"x[{proto.show(k)}] = {proto.show(v)}")
+            elif op == "put":
+                k, v = key(), val()
+                state[k] = v
+                lines.append(f"put(x, {proto.show(k)}, {proto.show(v)})")
+            elif op == "remove" and state:
+                k = rng.choice(list(state))
+                del state[k]
+                lines.append(f"remove(x, {proto.show(k)})")
+            else:
+                lines.append(rng.choice(observers))
+        final = ('m', tuple(state.items()))
+    elif kind == "set":
+        state = set()
+        lines.append("def x = <<>>")
+        for _ in range(rng.randint(3, 12)):
+            op = rng.choice(["append", "append", "remove", "observe", "observe"])
+            if op == "append":
+                k = key()
+                state.add(k)
+                lines.append(f"append(x, {proto.show(k)})")
+            elif op == "remove" and state:
+                k = rng.choice(sorted(state))
+                state.discard(k)
+                lines.append(f"remove(x, {proto.show(k)})")
+            else:
+                lines.append(rng.choice(observers))
+        final = ('S', tuple(state))
+    else:
+        state = []
+        lines.append("def x = []")
+        for _ in range(rng.randint(3, 12)):
+            op = rng.choice(["append", "append", "insert", "delete", "set", "observe", "observe"])
+            if op == "append":
+                v = val()
+                state.append(v)
+                lines.append(f"append(x, {proto.show(v)})")
+            elif op == "insert":
+                v, i = val(), rng.randint(0, len(state))
+                state.insert(i, v)
+                lines.append(f"insert_at(x, {i}, {proto.show(v)})")
+            elif op == "delete" and state:
+                i = rng.randrange(len(state))
+                del state[i]
+                lines.append(f"delete_at(x, {i})")
+            elif op == "set" and state:
+                v, i = val(), rng.randrange(len(state))
+                state[i] = v
+                lines.append(f"x[{i}] = {proto.show(v)}")
+            else:
+                lines.append(rng.choice(observers))
+        final = ('l', tuple(state))
+    return "; ".join(lines) + "; string(x)", final
+
+
 def run(ctx):
     from ckl import values as V
     rng = ctx.rng
     ctx.rule = ("generated data values to depth 3 (adversarial strings with quotes, backslashes, control characters, #, //, braces, non-ASCII; "
                 "negative numbers; decimals across all binades by bit pattern; empty and nested collections): str(v), evaluation of the text, "
-                "equality, type and re-rendering; all insertion orders of up to 5 elements render identically; model render vs implementation; "
+                "equality, type and re-rendering; all insertion orders of up to 5 elements render identically; maps, sets and lists changed step by step "
+                "through every mutating form (element assignment, put, append, insert_at, delete_at, remove) and rendered / spread / enumerated in "
+                "between, the final text compared with the rendering of the value; model render vs implementation; "
                 "non-trivial = a container or a string/decimal needing escaping / exponent handling")
     values = []
     for s in ADVERSARIAL_STRINGS:
@@ -182,6 +262,34 @@ def run(ctx):
             if len(sets) != 1 or len(maps) != 1:
                 ctx.violation("oracle", f"insertion orders of {[proto.show(x) for x in pick]} give {len(sets)} set renderings / {len(maps)} map renderings",
                               {"op": "insertion-orders", "items": [proto.to_sx(x) for x in pick]})
+    # ---------------- the text depends only on the value: containers changed step by step and observed in between
+    from harness import session
+    hist = [gen_history(rng) for _ in range(3000 if ctx.thorough else 600)]
+    hreqs = [session.model_request([src]) for src, _ in hist] if ctx.build.ok else []
+    hresp = core.run_driver(hreqs) if hreqs else []
+    impl = session.ImplSession()
+    try:
+        for k, (src, final) in enumerate(hist):
+            impl.it.environment.map.clear()
+            out, printed, _ = impl.run(src)
+            ctx.seen(("history", src), nontrivial=True)
+            ctx.count("mutation_histories")
+            want = ('val', ('s', str(proto.to_ckl(final))))
+            if out[:2] != want:
+                ctx.violation("oracle", f"after the history `{src}` the container renders as {out[:2]}, its value renders as {want[1][1]!r}",
+                              {"op": "program", "src": src, "expected": want[1][1]})
+            if hresp:
+                model, _g = session.parse_model_session(hresp[k])
+                m = model[0]
+                if m[0][0] == 'fail':
+                    ctx.count("model_abstains")
+                    continue
+                d = session.compare((out, printed, ()), (m[0], m[1], ()))
+                if d:
+                    ctx.disagreements += 1
+                    ctx.violation("correspondence", f"`{src}`: {d}", {"op": "program", "src": src, "correspondence": "Ckl.eval + Ckl.render vs Interpreter.interpret"})
+    finally:
+        impl.close()
     # ---------------- model render vs implementation
     if ctx.build.ok:
         resp = core.run_driver(reqs)
